@@ -101,7 +101,9 @@ def parse(text, store):
                 mm = re.search(r',\s*"((?:[^"\\]|\\.)*)"(\.\.\.)?,\s*(\d+)\)?$', args)
                 s["req"] = int(args.rsplit(",", 1)[1]) if args.rsplit(",", 1)[1].strip().isdigit() else None
         elif call in ("rename", "renameat", "renameat2"):
-            s["obj"] = "tmp->log"
+            # what name is given to a new file: the log's (the rewrite of plan / compact / the tail repair) or the lock's
+            dest = args.rsplit(",", 2)[-2] if call == "renameat2" and args.count(",") >= 4 else args.rsplit(",", 1)[-1]
+            s["obj"] = "tmp->lock" if "/lock" in dest and "jsonl" not in dest else "tmp->log"
         steps.append(s)
     return steps
 
